@@ -49,6 +49,9 @@ KEYOFF = -512
 KF_SIGN = "C07-signed-endian-zero-extended"
 KF_BYTE = "C07-endian-prefix-1byte"
 
+XLOC_Q = [">H", ">i", "!Q", "<h", "<I"]
+XLOC = [o + c for o in "><!" for c in "BHIQbhiq"]
+
 PATHS = ["var", "minarr", "gt", "ge", "lt", "le"]
 CMP = {"gt": operator.gt, "ge": operator.ge, "lt": operator.lt,
        "le": operator.le}
@@ -201,7 +204,7 @@ class Prog:
     def plant_local(self, e, slot=0):
         d = type(e).__dict__["lv"]
         self.raw(0x79, 0, 6, IN + 8 * slot, 0)
-        self.raw({1: 0x73, 2: 0x6b, 4: 0x63, 8: 0x7b}[SIZE[d.fmt]],
+        self.raw({1: 0x73, 2: 0x6b, 4: 0x63, 8: 0x7b}[SIZE[letter(d.fmt)]],
                  10, 0, d.relative_addr, 0)
         return e.lv
 
@@ -215,7 +218,8 @@ class Prog:
             else:
                 e.lv = self.get(e, p)
                 d = type(e).__dict__["lv"]
-                self.raw({1: 0x71, 2: 0x69, 4: 0x61, 8: 0x79}[SIZE[d.fmt]],
+                self.raw({1: 0x71, 2: 0x69, 4: 0x61,
+                          8: 0x79}[SIZE[letter(d.fmt)]],
                          0, 10, d.relative_addr, 0)
                 self.raw(0x7b, 6, 0, O_VAL, 0)
         elif k == "wc":
@@ -348,6 +352,10 @@ def operations(fmt, seed, quick):
         ops.append(("rd", "reg", k))
     for f in ("BhIq" if quick else LETTERS):
         ops.append(("rd", "loc", f))
+    # copies between variables that both carry a byte order
+    for f in XLOC_Q if quick else XLOC:
+        ops.append(("rd", "loc", f))
+        ops.append(("wv", f))
     for c in const_values(fmt, seed):
         ops.append(("wc", c))
     for k in ("r", "sr", "w", "sw"):
@@ -378,8 +386,10 @@ def source_value(kind, what, raw):
     if kind == "reg":
         bits, sg = REGBITS[what]
         return sx(raw, bits) if sg else raw & ((1 << bits) - 1)
-    n = SIZE[what]
-    return struct.unpack("<" + what, (raw & M64).to_bytes(8, "little")[:n])[0]
+    n = SIZE[letter(what)]
+    # the planted bits are the variable's bytes in memory order
+    return struct.unpack(what if len(what) > 1 else "<" + what,
+                         (raw & M64).to_bytes(8, "little")[:n])[0]
 
 
 def judge(case, pkt0, pkt1, area, raw_in, ran, res):
@@ -400,9 +410,13 @@ def judge(case, pkt0, pkt1, area, raw_in, ran, res):
         if pkt1 != pkt0:
             bad.append(("read changed the packet", pkt0.hex(), pkt1.hex(),
                         None))
-        dbits = REGBITS[op[2]][0] if op[1] == "reg" else 8 * SIZE[op[2]]
+        dbits = REGBITS[op[2]][0] if op[1] == "reg" \
+            else 8 * SIZE[letter(op[2])]
         obs = struct.unpack_from("<Q", area, O_VAL)[0] & ((1 << dbits) - 1)
         exp = old & ((1 << dbits) - 1)
+        if op[1] == "loc" and op[2][0] in ">!":
+            # the local's bytes, read back as a little-endian number
+            obs = int.from_bytes(obs.to_bytes(dbits // 8, "little"), "big")
         if obs != exp:
             kf = None
             if len(fmt) > 1 and signed(fmt) and 8 * n < dbits and old < 0 \
